@@ -139,6 +139,9 @@ Inductive cond : Type :=
   | CManyOptions (ignored : list tok)     (* cmd.num_options(ignored)>1 *)
   | CUnknown.                             (* cmd.unknown_argument()!=nullptr *)
 Record precheck : Type := { pc_conds : list cond; pc_calls_help : bool; pc_ret : Z }.
+(* the conversion of om_matrix_convert: which option variable names the input file, the output file, the explicit
+   input / output format, and the name whose suffix selects the output format when none is given *)
+Record conv : Type := { cv_in_file : tok; cv_out_file : tok; cv_in_fmt : tok; cv_out_fmt : tok; cv_suffix : tok }.
 Record tool : Type := {
   t_name : tok;
   t_decls : list decl;
@@ -147,7 +150,8 @@ Record tool : Type := {
   t_argv_uses : list (nat * tok);       (* argv[k] read after the early returns *)
   t_blocks : list block;
   t_unknown_exit : option Z;            (* if (num_options==0) exit(c) *)
-  t_documented : list tok }.            (* option names introduced by the help text *)
+  t_documented : list tok;              (* option names introduced by the help text *)
+  t_conv : option conv }.               (* om_matrix_convert: option variables feeding the conversion *)
 
 Definition nmand (b : block) : nat :=
   if b_multi b then mandatory (b_parms b) else List.length (b_parms b).
@@ -358,3 +362,31 @@ Definition doc_order_ok (b : block) : bool :=
   line_ok b (doc_full b) && line_ok b (doc_mand b)
   && (List.length (doc_mand b) =? nmand b)%nat && (List.length (b_parms b) <=? List.length (doc_full b))%nat.
 Definition tool_doc_order_ok (t : tool) : bool := forallb doc_order_ok (t_blocks t).
+
+(* ---------------------------------------------------------------- formats used by om_matrix_convert *)
+Definition var_value (t : tool) (argv : list tok) (v : tok) : tok :=
+  match find (fun d => tok_eqb (d_var d) v) (t_decls t) with Some d => decl_string argv d | None => [] end.
+(* characters after the last '.' (None: no dot) *)
+Fixpoint suffix_from (name : tok) (acc : option tok) : option tok :=
+  match name with
+  | [] => acc
+  | c :: r => if c =? 46 then suffix_from r (Some []) else suffix_from r (match acc with Some a => Some (a ++ [c]) | None => None end)
+  end.
+Definition format_of_suffix (table : list (tok * tok)) (name : tok) : tok :=
+  match suffix_from name None with
+  | None => []
+  | Some sfx => match find (fun p => tok_eqb (fst p) sfx) table with Some p => snd p | None => [] end
+  end.
+Definition tok_auto : tok := [97; 117; 116; 111].      (* "auto": no format given, the reader identifies the content *)
+Record conv_plan : Type := { cp_in : tok; cp_in_fmt : tok; cp_out : tok; cp_out_fmt : tok }.
+Definition conv_plan_of (table : list (tok * tok)) (t : tool) (argv : list tok) : option conv_plan :=
+  match t_conv t with
+  | None => None
+  | Some cv =>
+      let inf := var_value t argv (cv_in_fmt cv) in
+      let outf := var_value t argv (cv_out_fmt cv) in
+      Some {| cp_in := var_value t argv (cv_in_file cv);
+              cp_in_fmt := match inf with [] => tok_auto | _ => inf end;
+              cp_out := var_value t argv (cv_out_file cv);
+              cp_out_fmt := match outf with [] => format_of_suffix table (var_value t argv (cv_suffix cv)) | _ => outf end |}
+  end.
